@@ -60,7 +60,7 @@ def main():
                 if prev_meta.exists():
                     suite = json.loads(prev_meta.read_text()).get("suite_with_change", "skipped")
             else:
-                rc, out = sh(f"/venv/bin/python -m pytest tests -q -p no:cacheprovider -n 8 -x 2>&1 | tail -3", cwd=wt, env=env)
+                rc, out = sh(f"/venv/bin/python -m pytest tests -q -p no:cacheprovider --timeout=900 -n 8 2>&1 | tail -3", cwd=wt, env=env)
                 suite = out.strip().splitlines()[-1] if out.strip() else "?"
             rc_demo_bad, out_bad = sh(f"/venv/bin/python {demo}", cwd=wt, env=env, timeout=300)
             # checks against the patched tree
@@ -91,11 +91,14 @@ def main():
             det = ",".join(meta["detected_by"]) or "MISSED"
             print(f"{prop}-{k}: {status} suite[{suite}] demo(bad={rc_demo_bad}, ok={rc_demo_ok}) detected_by={det} "
                   f"rules={ {p: f['rules'] for p, f in fired.items()} }")
+            fc_dir = VERIF / "notes" / "first_contact"
+            fc_dir.mkdir(parents=True, exist_ok=True)
+            fc = fc_dir / f"{prop}-{k}.json"
+            if not fc.exists() and rc_demo_bad != 0 and rc_demo_ok == 0:
+                fc.write_text(json.dumps({"detected_by": meta["detected_by"], "checks": fired}, indent=1))
             if confirmed:
                 dest = VERIF / "seeded" / f"{prop}-{k}"
                 dest.mkdir(parents=True, exist_ok=True)
-                if not first_file.exists():
-                    first_file.write_text(json.dumps({"detected_by": meta["detected_by"], "checks": fired}, indent=1))
                 if patch.resolve() != (dest / "patch.diff").resolve():
                     shutil.copy(patch, dest / "patch.diff")
                     shutil.copy(demo, dest / "demo.py")
